@@ -1,7 +1,8 @@
 """C14 - lookup serves fresh, stable, correctly prioritised templates over time.
 
 Domain : histories (<= 40 ops) of {advance clock, write / delete / break / make-unreadable / fix a template file
-         in directory i, get_template, has_template, put_string, put_template, render} over 1..3 directories
+         in directory i, get_template, has_template, put_string, put_template (of a text template, or of a
+         file-backed Template under an alias URI), render} over 1..3 directories
          and 8 URIs on a simulated whole-second clock (vf.gen.fsim), x filesystem_checks on/off x
          collection_size in {-1,1,2,4} x module_directory on/off.  Driven by a hypothesis
          RuleBasedStateMachine; every op is recorded as plain data, the replay re-executes the list.
@@ -25,8 +26,9 @@ RULE = (
     "filesystem_checks x collection_size {-1,1,2,4} x module_directory (one shard per combination, exhaustive) x "
     "1..3 directories x hot-URI-set size. non-trivial = the history contains (a) a modification of a template file "
     "after it was loaded through the lookup followed by a fetch of that URI, or (b) an LRU eviction, or (c) a "
-    "failed load (compile error / unreadable) followed by a fix and a successful load of the same URI; distinct by "
-    "hash of (configuration, op list)."
+    "failed load (compile error / unreadable) followed by a fix and a successful load of the same URI, or (d) a "
+    "file-backed Template registered with put_template under an alias URI whose source file is modified later and "
+    "which is then fetched at least twice (reload + same object); distinct by hash of (configuration, op list)."
 )
 ASSUMPTIONS = [
     "time is the simulated whole-second clock of vf.gen.fsim (mako.codegen.time, mako.util.timeit, os.utime mtimes, "
@@ -41,11 +43,17 @@ ASSUMPTIONS = [
     "eviction of a put_string/put_template entry (the statement bounds the cache including such entries, so the "
     "entry is gone afterwards - counted under event:put_entry_evicted)",
     "LRU recency of put_string/put_template over an existing key is taken as either the old or the new stamp",
+    "put_template of a file-backed Template (op put_file): the entry's source file is the template's filename, "
+    "independent of the directory search for the alias URI; staleness / vanished / failed-compile rules are those "
+    "of directory-loaded entries, a reload must come from that file (no re-scan alternative) and, like every "
+    "template loaded by the lookup, carry uri == the requested URI (usage.rst); once dropped, the alias URI is "
+    "resolved by directory search again; the put Template is built in memory (no module_directory of its own)",
 ]
 
 NURI = 8
 URI_TAILS = ["/u0.html", "/u1.html", "/u2.html", "/u3.txt", "/s/u4.html", "/s/u5.html", "/s/t/u6.html", "/s/t/u7.html"]
 MAXOPS = 40
+CHUNK = 50  # machines per hypothesis run
 CSIZES = [-1, 1, 2, 4]
 CONFIGS = [(fs, cs, md) for fs in (True, False) for cs in CSIZES for md in (False, True)]  # 16
 
@@ -81,10 +89,6 @@ def broken_text(kind, tok):
     return "%s <%%def>x</%%def>\n" % tok
 
 
-class BudgetExhausted(Exception):
-    """The tier's wall-clock budget is used up: stop exploring (never a verdict)."""
-
-
 class Violation(AssertionError):
     """An oracle miss; carries the replay case."""
 
@@ -110,12 +114,13 @@ class FileM:
 
 
 class Entry:
-    __slots__ = ("obj", "kind", "origin", "ver", "c_lo", "c_hi", "rec_lo", "rec_hi", "dirty", "identity")
+    __slots__ = ("obj", "kind", "origin", "ver", "c_lo", "c_hi", "rec_lo", "rec_hi", "dirty", "identity", "alias",
+                 "reloaded", "fetches_since_reload")
 
     def __init__(self, obj, kind, origin, ver, c_lo, c_hi, rec_lo, rec_hi):
         self.obj = obj
-        self.kind = kind  # "file" | "put"
-        self.origin = origin
+        self.kind = kind  # "file" (has a source file: staleness rules apply) | "put" (text only)
+        self.origin = origin  # file key (directory index, URI index of the FILE) or None
         self.ver = ver
         self.c_lo = c_lo  # the compile moment lies in [c_lo, c_hi]
         self.c_hi = c_hi
@@ -123,6 +128,11 @@ class Entry:
         self.rec_hi = rec_hi
         self.dirty = False  # something about this URI changed on disk since the last fetch
         self.identity = False  # put_template: the very object must come back
+        # alias = the entry stems from put_template(uri, <file-backed Template>): its source file is given
+        # explicitly and is independent of the directory search for `uri` (uri may differ from the file's own URI)
+        self.alias = False
+        self.reloaded = False  # alias entry produced by a reload through the lookup (not the object that was put)
+        self.fetches_since_reload = 0
 
 
 SAME = ("same",)
@@ -142,7 +152,7 @@ class World:
         self.ops = []
         self.files = {}  # (d, u) -> FileM
         self.cache = {}  # u -> Entry
-        self.mods = {}  # u -> (gen_time, ver, dir the module was generated from)
+        self.mods = {}  # u -> (gen_time, ver, file key the module was generated from)
         self.handles = []  # [(Template, expected output)]
         self.vcount = 0
         self.tick = 0
@@ -152,6 +162,7 @@ class World:
         self.last_uri = 0
         self.dead = False
         self._open = False
+        self._paths = None
 
     # -- set-up / tear-down ---------------------------------------------
     def open(self):
@@ -214,14 +225,13 @@ class World:
     def path(self, d, u):
         return os.path.join(self.dirs[d], self.uris[u].lstrip("/"))
 
-    def dir_of(self, filename):
+    def key_of(self, filename):
+        """file key (d, u) of a managed template path, else None"""
         if filename is None:
             return None
-        fn = os.path.normpath(filename)
-        for i, d in enumerate(self.dirs):
-            if fn.startswith(os.path.normpath(d) + os.sep):
-                return i
-        return None
+        if self._paths is None:
+            self._paths = {os.path.normpath(self.path(d, u)): (d, u) for d in range(self.ndirs) for u in range(NURI)}
+        return self._paths.get(os.path.normpath(filename))
 
     def first_dir(self, u):
         for d in range(self.ndirs):
@@ -236,10 +246,11 @@ class World:
         case = {"cfg": self.cfg, "ops": [list(o) for o in self.ops]}
         return Violation(key, "op #%d %r: %s" % (len(self.ops) - 1, self.ops[-1] if self.ops else None, detail), case)
 
-    def touch(self, u):
-        e = self.cache.get(u)
-        if e is not None:
-            e.dirty = True
+    def touch(self, d, u):
+        """file (d, u) changed: concerns the entry cached under URI u and every entry whose source file it is"""
+        for cu, e in self.cache.items():
+            if cu == u or (e.kind == "file" and e.origin == (d, u)):
+                e.dirty = True
 
     def new_token(self, d, u):
         self.vcount += 1
@@ -267,11 +278,13 @@ class World:
         p = self.path(d, u)
         self.sim.set_unreadable(p, False)
         self.sim.write(p, text)
-        e = self.cache.get(u)
-        if e is not None and e.kind == "file" and e.origin == d and not e.dirty:
-            self.label("event:modify-loaded-file")
+        for e in self.cache.values():
+            if e.kind == "file" and e.origin == (d, u) and not e.dirty:
+                self.label("event:modify-loaded-file")
+                if e.alias:
+                    self.label("event:modify-alias-source")
         self.files[(d, u)] = FileM(ver, self.sim.now, broken, text)
-        self.touch(u)
+        self.touch(d, u)
         self.last_uri = u
         if self.failed_uris.get(u) == "failed" and not broken:
             self.failed_uris[u] = "fixed"
@@ -293,7 +306,7 @@ class World:
             return
         self.sim.remove(self.path(d, u))
         del self.files[(d, u)]
-        self.touch(u)
+        self.touch(d, u)
         self.last_uri = u
 
     def op_unreadable(self, d, u):
@@ -304,7 +317,7 @@ class World:
             return
         f.unreadable = True
         self.sim.set_unreadable(self.path(d, u), True)
-        self.touch(u)
+        self.touch(d, u)
         self.last_uri = u
 
     def op_fix(self, d, u):
@@ -316,7 +329,7 @@ class World:
         if f.unreadable:  # chmod back: content and mtime stay
             f.unreadable = False
             self.sim.set_unreadable(self.path(d, u), False)
-            self.touch(u)
+            self.touch(d, u)
             self.last_uri = u
             if self.failed_uris.get(u) == "failed" and not f.broken:
                 self.failed_uris[u] = "fixed"
@@ -325,31 +338,31 @@ class World:
             self._put_file(d, u, good_text(self.vcount % GOOD_KINDS, tok), tok, False)
 
     # -- prediction ---------------------------------------------------------
-    def load_alts(self, d, u):
-        """Acceptable outcomes of constructing a Template for file (d, u) now."""
-        f = self.files[(d, u)]
+    def load_alts(self, fk, u):
+        """Acceptable outcomes of constructing a Template for the file with key fk under URI u now."""
+        f = self.files[fk]
         now = self.sim.now
         if f.unreadable:
             fresh = [("raise", "os")]
         elif f.broken:
             fresh = [("raise", "compile")]
         else:
-            fresh = [("ok", d, f.ver, now, now, True, None)]
+            fresh = [("ok", fk, f.ver, now, now, True, None)]
         if not self.moddir:
             return fresh
         m = self.mods.get(u)
         if m is None or m[0] < f.mtime:
             return fresh  # module absent or older than the source: it must be regenerated
         # A module file not older than the source exists.
-        from_module = ("ok", d, m[1], m[0], now, False, None)
+        from_module = ("ok", fk, m[1], m[0], now, False, None)
         if m[1] == f.ver:
             # generated from exactly this file content: it is the compiled form of the file
             return [from_module] + (fresh if f.unreadable else [])
-        if STRICT_XDIR and m[2] != d and f.mtime < m[0]:
-            # generated from the file of ANOTHER directory, and this file is strictly older than the module (it
+        if STRICT_XDIR and m[2] != fk and f.mtime < m[0]:
+            # generated from ANOTHER file (other directory / other source), and this file is strictly older than the module (it
             # did not change in the module's second): must be served from this directory.  The module's content
             # is recognised (tag) so that it gets its own key, but it is not acceptable.
-            return fresh + [("ok", d, m[1], m[0], now, False, "xdir")]
+            return fresh + [("ok", fk, m[1], m[0], now, False, "xdir")]
         # rewritten within the second the module was generated in: the statement does not say which one is served
         return [from_module] + fresh
 
@@ -359,18 +372,20 @@ class World:
             d = self.first_dir(u)
             if d is None:
                 return [("raise", "toplevel")], "toplevel"
-            return self.load_alts(d, u), "load-uncached"
+            return self.load_alts((d, u), u), "load-uncached"
         if e.kind == "put":
             return [SAME], "same-put"
         if not self.fs_checks:
             return [SAME], "same-nochecks"
-        f = self.files.get((e.origin, u))
+        f = self.files.get(e.origin)
         if f is None:
             return [("raise", "vanished")], "vanished"
         reload_ = list(self.load_alts(e.origin, u))
         first = self.first_dir(u)
-        if first != e.origin:
-            reload_ += [a for a in self.load_alts(first, u) if a not in reload_]
+        if not e.alias and (first, u) != e.origin:
+            # a reload that re-scans the directories is not excluded by the statement (an alias entry names its
+            # source file explicitly: no directory search applies while it is cached)
+            reload_ += [a for a in self.load_alts((first, u), u) if a not in reload_]
         if f.mtime >= e.c_hi + 1:
             if not e.dirty:
                 raise core.HarnessError("model: file newer than the cached compile but nothing changed since last fetch")
@@ -403,7 +418,7 @@ class World:
                 out.append({"toplevel": "TopLevelLookupException", "vanished": "TemplateLookupException",
                             "compile": "CompileException|SyntaxException", "os": "OSError|TemplateLookupException"}[a[1]])
             elif a[6] is None:
-                out.append("LOAD(dir %d, version %s%s)" % (a[1], a[2], "" if a[5] else ", from module file"))
+                out.append("LOAD(dir %d file %s, version %s%s)" % (a[1][0], URI_TAILS[a[1][1]], a[2], "" if a[5] else ", from module file"))
         return " | ".join(out)
 
     # -- fetch ops -----------------------------------------------------------
@@ -476,12 +491,18 @@ class World:
         if e is not None and e.obj is not None and t is e.obj:
             if SAME not in alts:
                 raise self.violation("stale", "expected %s; observed the cached object (compiled at %s..%s, file mtime %s, now %s)"
-                                     % (exp, e.c_lo, e.c_hi, getattr(self.files.get((e.origin, u)), "mtime", None), self.sim.now))
+                                     % (exp, e.c_lo, e.c_hi, getattr(self.files.get(e.origin), "mtime", None), self.sim.now))
             if delta != 0:
                 raise self.violation("same-object", "the cached object came back but %d Template construction(s) happened" % delta)
             self.label("outcome:same")
             if len(alts) > 1:
                 self.label("event:either-resolved-same")
+            if e.alias:
+                self.label("outcome:alias-same")
+                if e.reloaded:
+                    e.fetches_since_reload += 1
+                    self.label("event:alias-same-object-after-reload")
+                    self.nt.add("alias-source-modified-then-2-fetches")
             e.dirty = False
             e.rec_lo = e.rec_hi = self.tick
             self.hold(t, None)
@@ -504,12 +525,12 @@ class World:
                                      % (exp, delta, t.filename))
             raise self.violation("exception", "expected %s; observed a Template (filename=%r)" % (exp, t.filename))
         out = self.render(t)
-        d = self.dir_of(t.filename)
-        cand = [a for a in oks if a[1] == d and rendered(a[2]) == out]
+        fk = self.key_of(t.filename)
+        cand = [a for a in oks if a[1] == fk and rendered(a[2]) == out]
         if not cand:
             if SAME in alts and len(alts) == 1:
                 key = "same-object"
-            elif d is not None and d not in [a[1] for a in oks]:
+            elif fk is not None and fk not in [a[1] for a in oks]:
                 key = "priority"
             elif verdict in ("fresh", "either"):
                 key = "stale"
@@ -524,15 +545,15 @@ class World:
                 self.label("event:known-xdir-module-served")
             else:
                 raise self.violation(XDIR_KEY, "expected %s; observed a Template with filename=%r rendering %r = the content "
-                                     "of the file in directory %d, kept in the module file generated at %s (this file: mtime %s, "
-                                     "unchanged since before that)" % (exp, t.filename, out, m[2], m[0], self.files[(a[1], u)].mtime))
+                                     "of file %r, kept in the module file generated at %s (this file: mtime %s, "
+                                     "unchanged since before that)" % (exp, t.filename, out, m[2], m[0], self.files[a[1]].mtime))
         if a[5]:
             self.label("outcome:load-compiled")
             if self.moddir:
                 self.mods[u] = (self.sim.now, a[2], a[1])
         else:
             self.label("outcome:load-from-module")
-            if a[2] != self.files[(a[1], u)].ver:
+            if a[2] != self.files[a[1]].ver:
                 self.label("event:module-not-older-served-other-content")
         if SAME in alts:
             self.label("event:either-resolved-load")
@@ -541,7 +562,16 @@ class World:
         if self.failed_uris.get(u) == "fixed":
             self.nt.add("failed-load-then-fix-then-load")
             self.failed_uris.pop(u)
+        if getattr(t, "uri", None) != uri:
+            # usage.rst: the lookup "will also assign a uri property to the Template which is the URI passed to
+            # the get_template() call"
+            raise self.violation("uri", "a template loaded for URI %r carries uri=%r" % (uri, getattr(t, "uri", None)))
         ne = Entry(t, "file", a[1], a[2], a[3], a[4], self.tick, self.tick)
+        if e is not None and e.alias and a[1] == e.origin:
+            # the alias entry was reloaded from its explicit source file: it stays an alias entry
+            ne.alias = True
+            ne.reloaded = True
+            self.label("outcome:alias-reloaded")
         self.cache[u] = ne
         self.hold(t, out)
         return t
@@ -604,6 +634,32 @@ class World:
         except Exception as ex:
             raise self.violation("put", "put_template raised %s: %s" % (type(ex).__name__, ex))
         self._put_entry(u, t, tok, True)
+
+    def op_put_file(self, u, d, fu, mode):
+        """put_template(alias URI u, Template(filename=<managed file (d, fu)>)): a file-backed template registered
+        under a URI of the caller's choosing (usually not the file's own URI)."""
+        d %= self.ndirs
+        f = self.files.get((d, fu))
+        if f is None or f.broken or f.unreadable:
+            self.label("noop")
+            return
+        kw = {}
+        if mode % 2 == 0:
+            kw["uri"] = self.uris[fu]  # the template's own uri = the file's natural URI; else derived from the path
+        try:
+            t = self.RealTemplate(filename=self.path(d, fu), lookup=self.lookup, **kw)
+            self.lookup.put_template(self.uris[u], t)
+        except Exception as ex:
+            raise self.violation("put", "put_template of a file-backed template raised %s: %s" % (type(ex).__name__, ex))
+        old = self.cache.get(u)
+        e = Entry(t, "file", (d, fu), f.ver, self.sim.now, self.sim.now, self.tick, self.tick)
+        e.identity = True
+        e.alias = True
+        if old is not None:
+            e.rec_lo = old.rec_lo
+        self.cache[u] = e
+        self.last_uri = u
+        self.label("alias:own-uri" if u == fu else "alias:other-uri")
 
     # -- LRU ------------------------------------------------------------------
     def check_lru(self):
@@ -690,7 +746,7 @@ def classify(f):
 
 
 # ---------------------------------------------------------------------------
-def make_machine(base_cfg, ev, known, state, deadline=None):
+def make_machine(base_cfg, ev, known, state):
     from hypothesis import strategies as st
     from hypothesis.stateful import RuleBasedStateMachine, initialize, precondition, rule
 
@@ -738,8 +794,6 @@ def make_machine(base_cfg, ev, known, state, deadline=None):
         @initialize(ndirs=st.integers(1, 3), hot=st.sampled_from([2, 3, 4, 6, 8]),
                     pre=st.lists(st.tuples(dirs, st.integers(0, NURI - 1), ck), min_size=2, max_size=6))
         def init(self, ndirs, hot, pre):
-            if deadline is not None and time.time() > deadline:  # budget only; no oracle looks at the wall clock
-                raise BudgetExhausted()
             cfg = dict(base_cfg, ndirs=ndirs, hot=hot)
             self.w = World(cfg, known_ids=known).open()
             for d, u, k in pre:
@@ -748,7 +802,7 @@ def make_machine(base_cfg, ev, known, state, deadline=None):
         # -- rules --
         def cached_files(self):
             w = self.w
-            return sorted(u for u, e in w.cache.items() if e.kind == "file" and (e.origin, u) in w.files)
+            return sorted(u for u, e in w.cache.items() if e.kind == "file" and e.origin in w.files)
 
         def nput(self):
             return sum(1 for e in self.w.cache.values() if e.kind == "put")
@@ -766,7 +820,8 @@ def make_machine(base_cfg, ev, known, state, deadline=None):
         def modify_loaded(self, data, k):
             w = self.w
             u = data.draw(st.sampled_from(self.cached_files()), label="uri")
-            self.do("write", w.cache[u].origin, u, k)
+            d, fu = w.cache[u].origin
+            self.do("write", d, fu, k)
 
         @precondition(lambda self: self.w is not None and self.cached_files())
         @rule(data=st.data(), adv=st.sampled_from([0, 1, 1, 2, 3]), k=ck,
@@ -776,21 +831,21 @@ def make_machine(base_cfg, ev, known, state, deadline=None):
             """load happened earlier; now: maybe let time pass, change the loaded file, fetch again"""
             w = self.w
             u = data.draw(st.sampled_from(self.cached_files()), label="uri")
-            d = w.cache[u].origin
+            d, fu = w.cache[u].origin  # the entry's source file (for an alias entry fu != u in general)
             if adv:
                 self.do("advance", adv)
             if how == "write":
-                self.do("write", d, u, k)
+                self.do("write", d, fu, k)
             elif how == "rewrite-twice":
-                self.do("write", d, u, k)
+                self.do("write", d, fu, k)
                 self.do("get", u)
-                self.do("write", d, u, k + 1)
+                self.do("write", d, fu, k + 1)
             elif how == "break":
-                self.do("break", d, u, k)
+                self.do("break", d, fu, k)
             elif how == "delete":
-                self.do("delete", d, u)
+                self.do("delete", d, fu)
             else:
-                self.do("unreadable", d, u)
+                self.do("unreadable", d, fu)
             self.do("has" if then == "has" else "get", u)
             if then == "getget":
                 self.do("get", u)
@@ -883,6 +938,45 @@ def make_machine(base_cfg, ev, known, state, deadline=None):
             if then:
                 self.do("get", u)
 
+        def good_files(self):
+            return sorted(k for k, f in self.w.files.items() if not f.broken and not f.unreadable)
+
+        def nalias(self):
+            return sum(1 for e in self.w.cache.values() if e.alias)
+
+        @precondition(lambda self: self.w is not None and self.good_files() and self.nalias() < 2)
+        @rule(data=st.data(), alias=st.integers(0, NURI - 1), mode=st.integers(0, 1), then=st.booleans())
+        def put_file_template(self, data, alias, mode, then):
+            """put_template of a file-backed Template under an alias URI"""
+            d, fu = data.draw(st.sampled_from(self.good_files()), label="file")
+            self.do("put_file", alias, d, fu, mode)
+            if then:
+                self.do("get", alias)
+
+        @precondition(lambda self: self.w is not None and self.good_files() and self.nalias() < 2)
+        @rule(data=st.data(), alias=st.integers(0, NURI - 1), mode=st.integers(0, 1), pre=st.booleans(),
+              adv=st.sampled_from([0, 1, 1, 2, 3]), k=ck,
+              how=st.sampled_from(["write", "write", "write", "break", "delete", "unreadable"]),
+              fetches=st.lists(st.sampled_from(["get", "get", "has"]), min_size=2, max_size=3))
+        def alias_cycle(self, data, alias, mode, pre, adv, k, how, fetches):
+            """alias registration, time passes, the source file changes, the alias is fetched repeatedly"""
+            d, fu = data.draw(st.sampled_from(self.good_files()), label="file")
+            self.do("put_file", alias, d, fu, mode)
+            if pre:
+                self.do("get", alias)
+            if adv:
+                self.do("advance", adv)
+            if how == "write":
+                self.do("write", d, fu, k)
+            elif how == "break":
+                self.do("break", d, fu, k)
+            elif how == "delete":
+                self.do("delete", d, fu)
+            else:
+                self.do("unreadable", d, fu)
+            for f in fetches:
+                self.do(f, alias)
+
         @precondition(lambda self: self.w is not None and self.w.handles)
         @rule(h=st.integers(0, 23))
         def render(self, h):
@@ -932,27 +1026,38 @@ def shard(task):
     if deadline is not None and time.time() > deadline:
         ev.notes["shards_not_started_budget"] = 1
         return ev, []
-    Machine = make_machine(base_cfg, ev, known, state, deadline)
-    st_ = settings(
-        max_examples=n,
-        stateful_step_count=MAXOPS,
-        deadline=None,
-        database=None,
-        derandomize=False,
-        report_multiple_bugs=False,
-        suppress_health_check=list(HealthCheck),
-        phases=[Phase.generate],
-        print_blob=False,
-        verbosity=hypothesis.Verbosity.quiet,
-    )
+    Machine = make_machine(base_cfg, ev, known, state)
     fails = []
-    try:
-        run_state_machine_as_test(hypothesis.seed(seed)(Machine), settings=st_)
-    except Violation as v:
-        f = Failure(v.case, v.detail, v.key)
-        fails.append(minimise(f))
-    except BudgetExhausted:
-        ev.notes["shards_cut_short_budget"] = 1
+    # The machines of a shard are run in chunks (one hypothesis run each, seeds derived from the shard seed) so that
+    # the wall-clock budget can be honoured BETWEEN hypothesis runs - never by raising inside one, which hypothesis
+    # would (rightly) report as flaky data generation.
+    done = 0
+    ci = 0
+    while done < n:
+        if deadline is not None and time.time() > deadline:
+            ev.notes["shards_cut_short_budget"] = 1
+            break
+        m = min(CHUNK, n - done)
+        st_ = settings(
+            max_examples=m,
+            stateful_step_count=MAXOPS,
+            deadline=None,
+            database=None,
+            derandomize=False,
+            report_multiple_bugs=False,
+            suppress_health_check=list(HealthCheck),
+            phases=[Phase.generate],
+            print_blob=False,
+            verbosity=hypothesis.Verbosity.quiet,
+        )
+        try:
+            run_state_machine_as_test(hypothesis.seed((seed * 1000003 + ci) % (2 ** 63))(Machine), settings=st_)
+        except Violation as v:
+            f = Failure(v.case, v.detail, v.key)
+            fails.append(minimise(f))
+            break
+        done += m
+        ci += 1
     ev.notes["steps"] = state.get("steps", 0)
     return ev, fails
 
